@@ -79,6 +79,11 @@ static AbSynList 	   macexGlobalMacros;
 static AbSynList	   macexLocalMacros;
 static Bool		   macexUseMacros = 1;
 
+/* Interactive loop: where the macro stack stood when the current step began,
+ * and whether that step was rejected (its macros are then withdrawn). */
+static MacDefList	   macexStepMark  = listNil(MacDef);
+static Bool		   macexUndoState = false;
+
 local void	popMacDef	(void);
 /****************************************************************************
  ****************************************************************************/
@@ -87,9 +92,21 @@ void
 macexInitFile(void)
 {
 	macDefs = listNil(MacDef); /* 0; */
+	macexStepMark  = listNil(MacDef);
+	macexUndoState = false;
 	macexSavedPhaseSymbolDataList = 0;
 	macexGlobalMacros = listNil(AbSyn);
 	macexLocalMacros = listNil(AbSyn);
+}
+
+/*
+ * The current step of the interactive loop was rejected: the macros it
+ * defined are withdrawn when the next step is expanded.
+ */
+void
+macexSetUndoState(void)
+{
+	macexUndoState = true;
 }
 
 void
@@ -372,6 +389,14 @@ macroExpand(AbSyn ab)
 		macexSavedPhaseSymbolDataList = 0;
 	}
 	
+	if (fintMode == FINT_LOOP) {
+		if (macexUndoState)
+			while (macDefs && macDefs != macexStepMark)
+				popMacDef();
+		macexUndoState = false;
+		macexStepMark  = macDefs;
+	}
+
 	mds = pushMacScope();
 
 	/* Process global (exported) macro definitions */ 
